@@ -93,6 +93,10 @@ func (l *LN) CreateInvoice(amount uint64) (lightning.Invoice, error) {
 	if l.CreateInvoiceErr {
 		return lightning.Invoice{}, errors.New("scripted: cannot create invoice")
 	}
+	if amount > ^uint64(0)/1000 {
+		// a node does not make an invoice whose amount in millisatoshi does not fit 64 bits
+		return lightning.Invoice{}, errors.New("scripted: amount too large for an invoice")
+	}
 	req, preimage, hash, err := lightning.CreateFakeInvoice(amount, false)
 	if err != nil {
 		return lightning.Invoice{}, err
